@@ -23,6 +23,9 @@ def universe(level):
         # only when the members are merged -- for a set inside an Optional member that is at the very end of the simplification)
         ("Lit{a0..a9}", lambda: L({f"a{i}" for i in range(10)})), ("Lit{b0..b9}", lambda: L({f"b{i}" for i in range(10)})),
         ("Opt[Lit{b0..b9}]", lambda: DOptional(L({f"b{i}" for i in range(10)}))),
+        # built through the API (say, a caller that wraps every field in Optional): the statement's "Optional is never nested in
+        # Optional" is about the result of simplification, whatever it was given
+        ("Opt[Opt[float]]", lambda: DOptional(DOptional(float))), ("Opt[List[Opt[Opt[int]]]]", lambda: DOptional(DList(DOptional(DOptional(int))))),
     ]
     if level == "full":
         u += [
@@ -57,13 +60,18 @@ def scen_universe(ch, params, out):
         idx = [i, j]
         if k == 3:
             idx.append(j + ch.pick("t2-t1", n - j))
-    wrap = ch.choose("position", ["union", "field", "optional_field", "list_element"])
+    # a single member may also stand on its own, without a union around it
+    wrap = ch.choose("position", ["union", "field", "optional_field", "list_element"] + (["bare", "bare_field", "bare_list_element"] if k == 1 else []))
     names = [U[i][0] for i in idx]
     out.info = {"members": names, "position": wrap}
     from json_to_models.dynamic_typing import DList, DOptional
     gen = MetadataGenerator()
-    t = DUnion(*[U[i][1]() for i in idx])
-    if wrap == "field":
+    t = DUnion(*[U[i][1]() for i in idx]) if not wrap.startswith("bare") else U[idx[0]][1]()
+    if wrap == "bare_field":
+        t = {"f": t}
+    elif wrap == "bare_list_element":
+        t = DList(t)
+    elif wrap == "field":
         t = {"f": t}
     elif wrap == "optional_field":
         t = {"f": DOptional(t)}
@@ -244,7 +252,7 @@ def scen_two_rounds(ch, params, out):
 def parts(tier):
     if tier == "quick":
         return [
-            CH("universe22", "vflib.props.c08:scen_universe", {"universe": "small", "max": 3}, shards=16, timeout=170, path_timeout=30),
+            CH("universe24", "vflib.props.c08:scen_universe", {"universe": "small", "max": 3}, shards=16, timeout=170, path_timeout=30),
             CH("inputs", "vflib.props.c08:scen_inputs", {"kinds": "KINDS_FULL", "samples": 2, "keys": ["a"], "symbolic_leaves": False,
                                                          "merge": ["default"]},
                shards=16, timeout=170, path_timeout=30),
@@ -264,7 +272,7 @@ def parts(tier):
         CH("registry_merge_literal_overflow", "vflib.props.c08:scen_registry_merge", {"atoms": ["lits_a", "lits_b", "intstr", "lit", "null", "absent", "float"]},
            shards=16, timeout=250, path_timeout=30),
         CH("late_registration", "vflib.props.c08:scen_late_registration", {}, shards=16, timeout=250, path_timeout=30),
-        CH("universe44", "vflib.props.c08:scen_universe", {"universe": "full", "max": 3}, shards=16, timeout=250, path_timeout=30),
+        CH("universe46", "vflib.props.c08:scen_universe", {"universe": "full", "max": 3}, shards=16, timeout=250, path_timeout=30),
         CH("inputs", "vflib.props.c08:scen_inputs", {"kinds": "KINDS_FULL", "samples": 2, "keys": ["a"], "symbolic_leaves": False,
                                                      "merge": ["default", "p50n2"], "dkf": True}, shards=16, timeout=250, path_timeout=30),
         CH("inputs_grammar_depth1_pairs", "vflib.props.c08:scen_inputs", {"kinds": "GRAMMAR1", "samples": 2, "keys": ["a"], "symbolic_leaves": False},
